@@ -160,3 +160,13 @@ def pasted_k(seq, k):
     if k == 5:
         return seq.lower()
     return "\r\n".join(seq.lower()[i:i + 7] for i in range(0, len(seq), 7))
+
+
+def shuffled_child(o, spec):
+    """get_shuffled_sequence() of a live object with the library's PRNG owned by the harness (spec = {"tape": int, "frozen": [...]}):
+    the child is a sequence object like any other, so every property applies to it with its own sequence."""
+    from . import tape
+    n = len(o.get_sequence())
+    frozen = set(int(i) for i in (spec.get("frozen") or []) if 0 <= int(i) < n)
+    with tape.installed(tape.Tape(int(spec.get("tape", 0)))):
+        return o.get_shuffled_sequence(frozen) if frozen else o.get_shuffled_sequence()
